@@ -32,7 +32,11 @@ def tree_of(v):
         return ('l', f, t, tree_of(v.items[0])) if v.is_left() else ('r', f, t, tree_of(v.items[1]))
     if isinstance(v, ListType):
         return ('q', f, t, [tree_of(x) for x in v.items])
-    return ('a', f, t, mich.normalize(v.to_micheline_value(mode='optimized')))
+    try:
+        m = mich.normalize(v.to_micheline_value(mode='optimized'))
+    except Exception:  # a leaf the real code cannot render: an observable outcome, not a harness error
+        m = {'prim': 'RENDER_ERROR'}
+    return ('a', f, t, m)
 
 
 def _ann(x):
@@ -168,7 +172,10 @@ class Real:
             return ('fail',)
         obs = []
         for x in self.I.stack.items:
-            m = strip_annots(mich.normalize(x.to_micheline_value(mode='optimized')))
+            try:
+                m = strip_annots(mich.normalize(x.to_micheline_value(mode='optimized')))
+            except Exception:
+                m = {'prim': 'RENDER_ERROR'}
             try:
                 # a lambda value legitimately carries the annotations written in its code
                 packed = x.pack().hex() if x.is_packable() and 'lambda' not in json.dumps(x.as_micheline_expr()) else None
@@ -196,8 +203,8 @@ def minimal_witness(real, key):
     if key not in fam:
         return None
     for m in (3, 4, 5):
-        for j in range(1, m - 1):
-            for ann in ('%x', ':x'):
+        for j in range(0, m - 1):
+            for ann in ((':x',) if j == 0 else ('%x', ':x')):
                 sh = G.t_pairn([('nat',)] * m)
                 ty = G.plain(sh)
                 node = ty
@@ -322,7 +329,7 @@ def run(ctx):
     ]
 
     # ================================================================= helpers stream
-    n_vals = 350 if quick else 6000
+    n_vals = 260 if quick else 6000
     lines, impl, descs = [], [], []
     witnessed = set()
 
@@ -401,8 +408,10 @@ def run(ctx):
             add(f'unpairn {n} {vt}', 'err' if got is None else line_vals(got), dict(desc, op=f'UNPAIR {n}'))
             check(f'UNPAIR {n}', 'UNPAIR n', got, got0, ref_unpairn(n, sv))
         # PAIR n on the leaves of this comb
-        items = list(v.iter_comb()) if rng.random() < 0.5 else [v.items[0], v.items[1]]
-        items0 = [real.value(G.strip_type(x.as_micheline_expr()), x.to_micheline_value(mode='optimized')) for x in items]
+        if rng.random() < 0.5:
+            items, items0 = list(v.iter_comb()), list(v0.iter_comb())
+        else:
+            items, items0 = [v.items[0], v.items[1]], [v0.items[0], v0.items[1]]
         n = rng.choice([0, 1, 2, len(items), len(items), len(items) + 1])
         got, got0 = real.on_stack(items, f'PAIR {n}'), real.on_stack(items0, f'PAIR {n}')
         its = [tree_of(x) for x in items]
